@@ -49,7 +49,7 @@ def case(draw, tier="quick"):
         sep = draw(st.text(max_size=2))
     n_orders = draw(st.sampled_from([1, 2, 5, 50, 100, 300, 2000 if tier == "thorough" else 600]))
     return {"names": names, "sep": sep, "n_orders": n_orders, "simulated": draw(st.booleans()),
-            "unknown": draw(st.booleans())}
+            "unknown": draw(st.booleans()), "stages": draw(st.sampled_from([1, 1, 2, 3]))}
 
 
 def make_orders(strategy, n, sep, market_id="1.100000000"):
@@ -129,16 +129,26 @@ def check(c):
         # ---- round trip through a second framework instance
         known = strategies[:-1] if c["unknown"] and len(strategies) > 1 else strategies
         fw = Flumine(clients.BetfairClient(betting_client=None, username="rt", order_stream=False))
-        for s in known:
-            s2 = BaseStrategy(market_filter={}, name=s.name)
-            fw.strategies(s2, fw.clients, fw)
         sample = orders[:: max(1, len(orders) // 40)][:60]
         cos = [current_order_resource(o.customer_order_ref, 1000 + i, o.market_id, o.selection_id) for i, (s, o) in enumerate(sample)]
         co = type("CO", (), {})()
         co.orders = cos
         co.client = fw.clients.get_default()
         ev = events.CurrentOrdersEvent([co])
-        fw._process_current_orders(ev)
+        # strategies may be added to the running instance in stages: the snapshot (the exchange sends the full image
+        # of current orders) is processed after every stage, so references of strategies registered later are first
+        # seen while their strategy is still unknown
+        stages = max(1, min(c.get("stages", 1), len(known)))
+        if stages > 1:
+            classes.add("strategies-added-between-snapshots")
+        cut = [round(len(known) * (k + 1) / stages) for k in range(stages)]
+        done = 0
+        for k in range(stages):
+            for s in known[done:cut[k]]:
+                s2 = BaseStrategy(market_filter={}, name=s.name)
+                fw.strategies(s2, fw.clients, fw)
+            done = cut[k]
+            fw._process_current_orders(ev)
         by_name = {s.name: s for s in fw.strategies}
         adopted = {}
         for m in fw.markets:
